@@ -101,6 +101,15 @@ def all_shapes(tier):
             for (n1, c1), (n2, c2) in itertools.product(one[:5], one[:5]):
                 for (fa, f1), (fb, f2) in itertools.product(small[1:5], small[1:5]):
                     out.append(("%s | %s(%s) | %s(%s)" % (cn, n1, fa, n2, fb), cf(c1(f1), c2(f2))))
+        # contexts change the width (slice, compose, memory): keep the well-typed combinations only
+        good = []
+        for sid, src in out:
+            try:
+                T.build(src)
+            except Exception:
+                continue
+            good.append((sid, src))
+        out = good
     return out
 
 
